@@ -522,6 +522,11 @@ func (c *UConn) Write(b []byte) (int, error) {
 }
 
 func (uconn *UConn) ApplyConfig() error {
+	// extended_master_secret is offered exactly when the extension is (still) in the
+	// list: ExtendedMasterSecretExtension.writeToUConn sets the flag again. A caller
+	// may have removed the extension after the preset was applied, and a session that
+	// used EMS must not be offered by a hello without it (see loadSession).
+	uconn.HandshakeState.Hello.Ems = false
 	for _, ext := range uconn.Extensions {
 		err := ext.writeToUConn(uconn)
 		if err != nil {
